@@ -20,6 +20,14 @@ def get_session(kind):
             body = H.peer_open_bytes(65001, 180, '9.9.9.9', H.std_caps(65001, addpath=[(1, 1, 3), (2, 1, 3)]))
             neg, _, _ = H.negotiated(nb, body)
             _sessions[kind] = (nb, neg)
+        elif kind == 'enh':
+            # extended next hop (RFC 8950) negotiated for ipv4 unicast: IPv4 prefixes may come in MP_REACH_NLRI with an
+            # IPv6 next hop of 16 or 32 octets
+            nb = H.neighbor(capability='nexthop enable;', extra='nexthop { ipv4 unicast ipv6; }')
+            neg, _, _ = H.negotiated(nb, H.peer_open_bytes(65001, 180, '9.9.9.9', H.std_caps(65001, nexthop=[(1, 1, 2)])))
+            if not neg.nexthop:
+                raise RuntimeError('harness: extended next hop was not negotiated')
+            _sessions[kind] = (nb, neg)
         elif kind in ('ibgp4-aigp', 'ibgp4-noaigp'):
             on = kind == 'ibgp4-aigp'
             nb = H.neighbor(local_as=65000, peer_as=65000, capability='aigp enable;' if on else '')
@@ -51,7 +59,14 @@ def gen_update(rnd, kind):
     asns = [rnd.choice([65001, 65002, 64512, 23456 if not asn4 else 4200000001]) for _ in range(rnd.randint(0, 4))]
     has_set = rnd.random() < 0.2 and bool(asns)
     has_confed = not has_set and rnd.random() < 0.2 and bool(asns)
-    if has_confed:
+    has_lead_set = not has_set and not has_confed and rnd.random() < 0.15 and bool(asns)
+    if has_lead_set:
+        # a leading AS_SET of two members (an aggregate further down the path), then the sequence: RFC 6793 4.2.3 counts
+        # the set as ONE AS when it works out how much of AS_PATH to prepend to AS4_PATH
+        w = 4 if asn4 else 2
+        members = [64700, 64701]
+        attrs.append(('as_path', W.attr(0x40, 2, bytes([1, 2]) + b''.join(a.to_bytes(w, 'big') for a in members) + bytes([2, len(asns)]) + b''.join(a.to_bytes(w, 'big') for a in asns))))
+    elif has_confed:
         # a leading AS_CONFED_SEQUENCE (RFC 5065), then the sequence: RFC 6793 4.2.3 keeps a leading confederation
         # segment when it prepends the start of AS_PATH to AS4_PATH
         w = 4 if asn4 else 2
@@ -61,7 +76,7 @@ def gen_update(rnd, kind):
         attrs.append(('as_path', W.attr(0x40, 2, bytes([2, len(asns)]) + b''.join(a.to_bytes(4 if asn4 else 2, 'big') for a in asns) + bytes([1, 1]) + (65009).to_bytes(4 if asn4 else 2, 'big'))))
     else:
         attrs.append(('as_path', W.as_path(asns, asn4)))
-    if not asn4 and rnd.random() < (0.8 if has_confed else 0.5) and asns and not has_set:  # AS4_PATH consistent with AS_PATH (RFC 6793 4.2.2)
+    if not asn4 and rnd.random() < (0.8 if (has_confed or has_lead_set) else 0.5) and asns and not has_set:  # AS4_PATH consistent with AS_PATH (RFC 6793 4.2.2)
         n4 = rnd.randint(0, len(asns))
         a4 = [rnd.choice([4200000001, 65002, 131072]) for _ in range(n4)]
         if a4:
@@ -93,6 +108,10 @@ def gen_update(rnd, kind):
         nh = NH6 + (LL6 if rnd.random() < 0.3 else b'')
         n6 = b''.join(W.prefix6(f'2001:db8:{rnd.randint(1, 0xffff):x}::', rnd.choice([32, 48, 64]), pid()) for _ in range(rnd.randint(1, 3)))
         attrs.append(('mp_reach', W.mp_reach(2, 1, nh, n6)))
+    elif kind == 'enh' and rnd.random() < 0.8:
+        nh = NH6 + (LL6 if rnd.random() < 0.4 else b'')
+        n4 = b''.join(W.prefix4(f'11.{rnd.randint(0, 255)}.{rnd.randint(0, 255)}.0', rnd.choice([16, 24]), None) for _ in range(rnd.randint(1, 3)))  # a range of its own: the NLRI field uses 10/8
+        attrs.append(('mp_reach', W.mp_reach(1, 1, nh, n4)))
     if rnd.random() < 0.3:
         attrs.append(('mp_unreach', W.mp_unreach(2, 1, W.prefix6(f'2001:db9:{rnd.randint(1, 0xffff):x}::', 48, pid()))))
     rnd.shuffle(attrs)
